@@ -3,7 +3,8 @@
 A *scenario* is a JSON-able dict describing one concrete use of the public API:
 
   kind     : "sup" | "semi"
-  mode     : "metric" (features + named metric) | "pre" (matrix installed through the public setters)
+  mode     : "metric" (features + named metric) | "pre" (matrix installed through the public setters) | "prefile" (matrix written
+             by the library's pre_compute_distance to a file the model is constructed on; judged against the metric itself)
   metric   : registry name
   Z        : full dataset rows (list of feature lists); for mode "pre" with TLC scenarios features are the row id
   D        : full distance matrix for mode "pre" (list of lists) or None (then computed with the metric)
@@ -72,6 +73,15 @@ def build_model(scn):
 
     np = _np()
     cls = SupervisedOPF if scn["kind"] == "sup" else SemiSupervisedOPF
+    if scn["mode"] == "prefile":
+        # the documented workflow: the library's own routine writes the matrix of the whole data set to a file (.txt / .csv, the
+        # same path again and again), the model is constructed on that file and addresses rows through index arrays
+        import opfython.math.general as g
+        how = H.derive_presentation(scn)
+        ext = ("txt", "csv")[len(scn["Z"]) % 2]
+        path = os.path.join(H.subdir("prefile"), "distances-%d.%s" % (os.getpid(), ext))
+        g.pre_compute_distance(H.present_layout(H.present_values(scn["Z"], how), how), path, scn.get("metric", "euclidean"))
+        return cls(distance=scn.get("metric", "euclidean"), pre_computed_distance=path)
     m = cls(distance=scn.get("metric", "euclidean"))
     if scn["mode"] == "pre":
         how = H.derive_presentation(scn)
@@ -103,21 +113,29 @@ def run_scenario(scn, want_events=True, twin_fin=None):
     how = H.derive_presentation(scn)
     P = lambda A: H.present_layout(A, how)
     Z = H.present_values(scn["Z"], how)
+    # per-role dtypes (optional): the labeled, unlabeled and query arrays of one scenario need not share a dtype
+    roles = scn.get("present_roles") or {}
     nl = len(scn["Y"])
     I_train = scn["I_train"] if scn.get("I_train") is not None else list(range(nl))
     U = scn.get("U") or []
     Q = scn.get("Q") or []
-    model = build_model(scn)
-    Xtr = Z[I_train].copy()
+    try:
+        model = build_model(scn)
+    except Exception as ex:
+        return None, ("exception", "%s: %s" % (type(ex).__name__, str(ex)[:200]))
+    Zf = np.array(scn["Z"], dtype=float)
+    sub = lambda rws, role: (H.present_values(Zf[rws], roles[role]) if role in roles else Z[rws].copy())
+    Xtr = sub(I_train, "train")
     Ytr = np.array(scn["Y"], dtype=int)
-    Xu = Z[U].copy() if U else np.zeros((0, Z.shape[1]))
-    passI = scn.get("pass_I", scn["mode"] == "pre")
+    Xu = sub(U, "unl") if U else np.zeros((0, Z.shape[1]))
+    Xq_all = sub(Q, "query") if Q else None
+    passI = scn.get("pass_I", scn["mode"] in ("pre", "prefile"))
     if scn.get("prefit"):
         # object history: the same object was fitted (and used) before on unrelated data; nothing of that may leak
         r_ = np.random.default_rng(int(scn["prefit"]))
         Xp = np.abs(r_.normal(size=(7, Z.shape[1]))) + 0.25 + 4.0 * (np.arange(7) % 2)[:, None]     # positive: in every metric's domain
         try:
-            if scn["mode"] == "pre":
+            if scn["mode"] in ("pre", "prefile"):
                 model.pre_computed_distance = False
             if scn["kind"] == "sup":
                 model.fit(Xp, np.arange(7) % 2)
@@ -127,7 +145,7 @@ def run_scenario(scn, want_events=True, twin_fin=None):
         except Exception as ex:
             return None, ("exception", "%s: %s" % (type(ex).__name__, str(ex)[:200]))
         finally:
-            if scn["mode"] == "pre":
+            if scn["mode"] in ("pre", "prefile"):
                 model.pre_computed_distance = True
     hist = list(H.derive_history(scn))
     if scn.get("reload") and "reload" not in hist:
@@ -135,9 +153,9 @@ def run_scenario(scn, want_events=True, twin_fin=None):
     if "refit" in hist:
         try:
             if scn["kind"] == "sup":
-                model.fit(P(Xtr.copy()), Ytr.copy(), (np.array(I_train) + (int(scn.get("id_offset", 0)) if scn["mode"] != "pre" else 0)) if passI else None)
+                model.fit(P(Xtr.copy()), Ytr.copy(), (np.array(I_train) + (int(scn.get("id_offset", 0)) if scn["mode"] not in ("pre", "prefile") else 0)) if passI else None)
             else:
-                model.fit(P(Xtr.copy()), Ytr.copy(), P(Xu.copy()), (np.array(I_train) + (int(scn.get("id_offset", 0)) if scn["mode"] != "pre" else 0)) if passI else None)
+                model.fit(P(Xtr.copy()), Ytr.copy(), P(Xu.copy()), (np.array(I_train) + (int(scn.get("id_offset", 0)) if scn["mode"] not in ("pre", "prefile") else 0)) if passI else None)
         except Exception as ex:
             return None, ("exception", "%s: %s" % (type(ex).__name__, str(ex)[:200]))
     CTX.update(on=True, model=model, snaps=[])
@@ -146,7 +164,7 @@ def run_scenario(scn, want_events=True, twin_fin=None):
         try:
             # with feature-based distances the index array is only a set of identifiers: any values must do (id_offset
             # makes them collide with the positions SemiSupervisedOPF gives the unlabeled nodes)
-            ids = np.array(I_train) + (int(scn.get("id_offset", 0)) if scn["mode"] != "pre" else 0)
+            ids = np.array(I_train) + (int(scn.get("id_offset", 0)) if scn["mode"] not in ("pre", "prefile") else 0)
             if scn["kind"] == "sup":
                 model.fit(P(Xtr.copy()), Ytr.copy(), ids if passI else None)
             else:
@@ -156,7 +174,7 @@ def run_scenario(scn, want_events=True, twin_fin=None):
         orig = model
         for step in hist:
             if step == "prepredict" and Q:
-                model.predict(P(Z[Q[::-1]].copy()), np.array(Q[::-1]) if passI else None)
+                model.predict(P(Xq_all[::-1].copy()), np.array(Q[::-1]) if passI else None)
             else:
                 # save -> load into a freshly constructed object (default arguments, i.e. another metric), or a deep copy
                 model = H.apply_history_step(model, step)
@@ -175,7 +193,7 @@ def run_scenario(scn, want_events=True, twin_fin=None):
         # predictions
         qres = []
         flags = []
-        Xq = Z[Q].copy() if Q else None
+        Xq = Xq_all.copy() if Q else None
         if Q:
             if scn.get("single_predict"):
                 for j, qrow in enumerate(Q):
@@ -200,15 +218,16 @@ def run_scenario(scn, want_events=True, twin_fin=None):
         DQ = Dfull[np.ix_(rows, Q)] if Q else np.zeros((n, 0))  # code reads pre[train.idx][query.idx]
     else:
         fn = orig.distance_fn
+        noderow = lambda i: (Xtr[i] if i < nl else Xu[i - nl]).copy()
         D = np.zeros((n, n))
         for i in range(n):
             for j in range(n):
                 if i != j:
-                    D[i, j] = fn(Z[rows[i]].copy(), Z[rows[j]].copy())
+                    D[i, j] = fn(noderow(i), noderow(j))
         DQ = np.zeros((n, len(Q)))
         for t in range(n):
             for j, qrow in enumerate(Q):
-                DQ[t, j] = fn(Z[rows[t]].copy(), Z[qrow].copy())
+                DQ[t, j] = fn(noderow(t), Xq_all[j].copy())
     if not np.all(np.isfinite(D)) or not np.all(np.isfinite(DQ)):
         return None, ("skip", "non_finite_distance")
     if (np.any(D < 0) or np.any(DQ < 0)) and not scn.get("allow_asymmetric"):
@@ -509,7 +528,7 @@ def random_float_scenario(rng, kind="sup", metric="euclidean", n=None, nu=0, nq=
         "Y": yy,
         "U": list(range(n, n + nu)),
         "Q": list(range(q0, q0 + nq)),
-        "pass_I": True if mode == "pre" else rng.random() < 0.5,
+        "pass_I": True if mode in ("pre", "prefile") else rng.random() < 0.5,
         "single_predict": False,
         "prefit": (rng.randrange(1, 10**6) if rng.random() < 0.2 else 0),
     }
@@ -531,6 +550,41 @@ def extreme_unit_scenarios(rng, count, kind="sup", nq=2, nu=0):
             continue
         if scn["mode"] == "pre" and i % 4 == 1:
             scn["D"] = (np.array(scn["D"]) * 2.0 ** -40).tolist()
+        out.append(scn)
+    return out
+
+
+def mixed_dtype_scenarios(rng, count, kind="sup", nq=4, nu=0):
+    """The arrays of one call need not share a dtype: integer-typed labeled samples on a grid with real-valued unlabeled samples
+    and queries (or the other way round)."""
+    np = _np()
+    out = []
+    for i in range(count):
+        scn = random_float_scenario(rng, kind=kind, metric=("euclidean", "manhattan", "squared_euclidean", "chebyshev")[i % 4], n=rng.randrange(4, 11), nu=nu, nq=nq,
+                                    mode="metric", classes=rng.choice([2, 3]), copies=False)
+        Z = np.array(scn["Z"])
+        grid = list(scn["I_train"]) if i % 2 == 0 else (list(scn["U"]) + list(scn["Q"]))
+        Z[grid] = np.round(Z[grid] * 3)                       # these rows are integral ...
+        other = [r for r in range(len(Z)) if r not in grid]
+        Z[other] = Z[other] * 3 + 0.37                         # ... the others are not
+        scn["Z"] = Z.tolist()
+        scn["present"] = "f64"
+        scn["present_roles"] = {"train": "int", "unl": "f64", "query": "f64"} if i % 2 == 0 else {"train": "f64", "unl": "int", "query": "int"}
+        out.append(scn)
+    return out
+
+
+def prefile_scenarios(rng, count, kind="sup", nq=3, nu=0, metrics=("euclidean", "squared_euclidean", "manhattan", "log_squared_euclidean", "chi_squared")):
+    """Scenarios that go through the library's pre-computation routine and a distance file (mode 'prefile'), a third of them
+    with small-magnitude features (distances of order 1e-6 .. 1e-3 must survive the file as they are)."""
+    np = _np()
+    out = []
+    for i in range(count):
+        met = metrics[i % len(metrics)]
+        scn = random_float_scenario(rng, kind=kind, metric=met, n=rng.randrange(3, 11), nu=nu, nq=nq, mode="prefile", classes=rng.choice([2, 3]),
+                                    copies=(i % 2 == 0), positive=(met in POSITIVE_METRICS))
+        if i % 3 == 0:
+            scn["Z"] = (np.array(scn["Z"]) * (0.01 if i % 2 else 0.001)).tolist()
         out.append(scn)
     return out
 
